@@ -3,6 +3,7 @@ package sim
 import (
 	"encoding/json"
 	"fmt"
+	"net/url"
 	"regexp"
 	"sort"
 	"strings"
@@ -14,7 +15,7 @@ import (
 func init() {
 	Drivers["C03"] = driveC03
 	Levels["C03"] = "fault_enumeration"
-	Rules["C03"] = "one run = one generated document universe (1-5 documents on 2 hosts + urn ids, embedded resources with absolute/relative/urn $id, anchors scoped per resource, every $ref built from its intended target in a randomly chosen syntactic form; 2020-12 or draft-07; BaseURI empty or absolute; Loader nil when nothing remote is needed) checked under 4 map-order schedules. Enumerated per world and schedule: every probe path covering each reachable reference (right marker accepted, two wrong markers rejected); every subset of failing remote documents (<=4 remote docs; else singletons, pairs and 8 random sets); 'fail exactly the k-th loader call' for every k; recovery with a healthy loader after each failure; one planted dangling reference in 1/5 of the worlds. Non-trivial = the world must load >=1 remote document and some probe crosses a document or resource boundary. Distinct = hash(universe text, BaseURI) x order-vector hash."
+	Rules["C03"] = "one run = one generated document universe (1-5 documents on 2 hosts + urn ids, embedded resources with absolute/relative/urn $id, anchors scoped per resource, every $ref built from its intended target in a randomly chosen syntactic form; 2020-12 or draft-07; BaseURI empty or absolute; Loader nil when nothing remote is needed) checked under 4 map-order schedules. Enumerated per world and schedule: every probe path covering each reachable reference (right marker accepted, two wrong markers rejected); every subset of failing remote documents (<=4 remote docs; else singletons, pairs and 8 random sets); 'fail exactly the k-th loader call' for every k; recovery with a healthy loader after each failure; one planted dangling reference in 1/5 of the worlds; one world in six is relocatable (one host, relative ids and references only) and is additionally resolved - same root tree, caching Loader that hands out the same *Schema values - under its own host, under a mirror host where one document has other markers, and under its own host again. Non-trivial = the world must load >=1 remote document and some probe crosses a document or resource boundary. Distinct = hash(universe text, BaseURI) x order-vector hash."
 }
 
 var (
@@ -60,7 +61,8 @@ type worldCheck struct {
 func driveC03(c *Ctx) {
 	draft7 := c.W(4) == 0
 	dangling := c.W(5) == 0
-	u := GenUniverse(c, UniOpts{Draft7: draft7, Dangling: dangling})
+	reloc := !dangling && c.W(6) == 0
+	u := GenUniverse(c, UniOpts{Draft7: draft7, Dangling: dangling, Relocatable: reloc})
 	desc := JSON(u.Describe())
 	c.In("universe %s", desc)
 	c.Distinct("%s", desc)
@@ -84,6 +86,10 @@ func driveC03(c *Ctx) {
 		sch.apply(c)
 		c.logf("schedule %d: %s", si, sch)
 		w.check(si, plans, nilLoader)
+	}
+	if reloc {
+		simrt.SetOrderPolicy(simrt.OrderSorted)
+		w.mirror()
 	}
 	st := simrt.GetStats()
 	c.Distinct("%x", st.OrderHash)
@@ -372,4 +378,88 @@ func init() {
 		"cross-document references address a document's root resource (by retrieval URI or absolute canonical $id) plus a fragment; JSON-Pointer fragments do not cross embedded-resource boundaries; roots without an absolute base use fragment-only references (everything else is undefined by the specification)",
 		"error text is never compared",
 	}, CommonAssumptions...)
+}
+
+// mirror: the same relocatable universe is also served from a second host, where ONE document
+// has other markers; the Loader is a caching one (it hands out the same *Schema value every time
+// a document is asked for, under either host). The same root tree is resolved with the first
+// host's BaseURI, then with the mirror's, then with the first again: every reference must reach
+// the document of the host it was resolved under.
+func (w *worldCheck) mirror() {
+	c, u := w.c, w.u
+	const hostA, hostB = "http://a.test/", "http://m.test/"
+	var altered *Doc
+	for _, d := range u.Docs[1:] {
+		if w.closure[d.Index] && !d.Root.Leaf {
+			altered = d
+		}
+	}
+	if altered == nil {
+		return
+	}
+	oldP, newP := fmt.Sprintf("\"M%d_", altered.Index), fmt.Sprintf("\"X%d_", altered.Index)
+	alteredText := strings.ReplaceAll(altered.Text, oldP, newP)
+	cache := map[string]*jsonschema.Schema{}
+	loader := func(uri *url.URL) (*jsonschema.Schema, error) {
+		s := uri.String()
+		host := hostA
+		if strings.HasPrefix(s, hostB) {
+			host = hostB
+			s = hostA + strings.TrimPrefix(s, hostB)
+		}
+		for _, d := range u.Docs {
+			if d.URI != s {
+				continue
+			}
+			key, text := fmt.Sprint(d.Index), d.Text
+			if d == altered && host == hostB {
+				key, text = key+"@mirror", alteredText
+			}
+			if p := cache[key]; p != nil {
+				return p, nil // a caching loader: the same value again
+			}
+			var sch jsonschema.Schema
+			if err := json.Unmarshal([]byte(text), &sch); err != nil {
+				return nil, err
+			}
+			cache[key] = &sch
+			return &sch, nil
+		}
+		return nil, fmt.Errorf("simulated store: no document at %s", uri)
+	}
+	root, ok := w.freshRoot()
+	if !ok {
+		return
+	}
+	for pass, host := range []string{hostA, hostB, hostA} {
+		base := host + strings.TrimPrefix(u.BaseURI, hostA)
+		var res *jsonschema.Resolved
+		var err error
+		r := Op(func() { res, err = root.Resolve(&jsonschema.ResolveOptions{BaseURI: base, Loader: loader}) })
+		c.CheckOp("Resolve (mirror pass)", r)
+		if r.Panicked || err != nil {
+			c.Fail("C03/reach", "mirror-resolve", "pass %d: Resolve of a relocatable universe under BaseURI %s with a caching loader failed: %v %v", pass, base, r, err)
+			return
+		}
+		for _, p := range w.probes {
+			want := p.Target.Marker
+			if p.Target.Doc == altered && host == hostB {
+				want = "X" + want[1:]
+			}
+			for k, m := range []string{want, "ZZ"} {
+				inst := p.Instance(m)
+				var verr error
+				r := Op(func() { verr = res.Validate(inst) })
+				c.CheckOp("Validate(mirror probe)", r)
+				if r.Panicked {
+					return
+				}
+				if (verr == nil) != (k == 0) {
+					c.Fail("C03/reach", "mirror", "pass %d (BaseURI %s, caching loader, same root tree resolved before under the other host): probe %s with marker %s: valid=%v; the document of THIS host has marker %s (error: %v)", pass, base, p, m, verr == nil, want, verr)
+					return
+				}
+			}
+		}
+	}
+	c.Probe("mirror-universe-checked")
 }
